@@ -3,7 +3,9 @@ netlist.py, module.py).  Tree level: Netlist(tree) -> dump_yaml_modules/dump_yam
 layer (ruamel) is assumed to map a tree of dict/list/str/number/bool to itself (tuples become lists) and is exercised
 concretely in a bounded leg."""
 import random
+import json
 import os
+import warnings
 
 from vf.core import contract
 from .netlist_common import *  # noqa
@@ -140,6 +142,10 @@ def canary_centre_lost(S):
 
 # ---- bounded leg: the same round trip through the real YAML TEXT (ruamel) on concrete documents -------------------------
 
+NAMES = ["ctrl", "alu", "Mem", "zz_top", "B2"]         # neither in ASCII nor in case-insensitive order (a dumper that sorts keys would show)
+NAMES_UNSORTED = True
+
+
 def _rand_doc(rng):
     def num():
         return rng.choice([rng.randint(1, 9), round(rng.uniform(0.1, 9.9), 1), rng.uniform(0.1, 9.9)])
@@ -148,10 +154,10 @@ def _rand_doc(rng):
     x = 0.0
     for i in range(k):
         kind = rng.choice(["soft", "soft", "softreg", "hard", "fixed", "terminal", "flip"])
-        nm = f"M{i}"
+        nm = NAMES[i] if NAMES_UNSORTED else f"M{i}"
         x += 20
         if kind in ("soft", "softreg"):
-            info = {"area": num() if kind == "soft" else {"LUT": num(), "DSP": num()}}
+            info = {"area": num() if kind == "soft" else {"LUT": num(), "DSP": num(), "BRAM": num()}}
             if rng.random() < 0.7:
                 info["center"] = [x + num(), num()]
             if rng.random() < 0.5:
@@ -200,11 +206,27 @@ def text_roundtrip(chunk, replay=None):
     seen = set()
     for _ in range(n_docs):
         doc = replay["doc"] if replay else _rand_doc(rng)
+        if not replay and rng.random() < 0.25 and doc["Nets"]:
+            # the property speaks of every netlist THE READER ACCEPTS: documents with a defect are tried too (added after seed C04-8: a
+            # reader that starts accepting nets with unknown members produced documents it could not read back)
+            net = rng.choice(doc["Nets"])
+            kind = rng.choice(["unknown_member", "unknown_member", "one_member", "weight_only"])
+            if kind == "unknown_member":
+                net[rng.randrange(sum(isinstance(x, str) for x in net))] = "Ghost"
+            elif kind == "one_member":
+                del net[1:sum(isinstance(x, str) for x in net)]
+            else:
+                del net[:sum(isinstance(x, str) for x in net)]
         Rectangle.undefine_epsilon()
         try:
-            n1 = Netlist(write_yaml(doc))
-        except AssertionError:
+            with warnings.catch_warnings():
+                warnings.simplefilter("ignore")
+                # the input text is produced WITHOUT the library's writer (JSON is a subset of YAML): the harness must not depend on the code under test
+                n1 = Netlist(json.dumps(doc))
+        except Exception:  # noqa
             continue            # not accepted by the reader: outside the property
+        if [m.name for m in n1.modules] != list(doc["Modules"]):
+            failures.append(dict(clause="text.modules_in_document_order", doc=doc, observed=[m.name for m in n1.modules]))
         evals += 1
         txt = n1.write_yaml()
         key = txt
